@@ -98,6 +98,7 @@ def run(ctx):
             onj = any(q in j for j in S.jordans)
             ctx.check(onj == onb, "`p in jordan` (boundary test) disagrees", {"shape": d, "point": p}, onb, onj)
             ctx.check((q not in EmptyShape()) and (q in WholeShape()), "Empty/Whole membership", {"point": p})
+    normal_offset_family(ctx)
     # ---- curved shapes
     m = 10 if ctx.quick else 200
     for it in range(m):
@@ -144,3 +145,42 @@ def run(ctx):
             for flag in (True, False):
                 got = S.contains_point(p, flag)
                 ctx.check(got == truth, "curved shape: membership is not geometric truth", {"shape": name, "point": p, "boundary": flag, "offset": off}, truth, got)
+
+
+def normal_offset_family(ctx):
+    """points at a small signed distance s along the LEFT normal of a smooth boundary piece: the region of an oriented closed
+    curve is on the left of the direction of travel, so p = C(t) + s*n_left is inside iff s > 0 (for |s| far below the local
+    feature size).  Exercises large drawings, where the gap between a curved piece and its chords is large in absolute terms."""
+    import math
+    from shapepy import Primitive, JordanCurve, SimpleShape
+    from harness.props.c04 import rounded
+    rng = ctx.rng
+    subjects = []
+    for r, nd in ((1.0, 16), (1000.0, 4), (3000.0, 4), (3000.0, 16), (0.5, 8)):
+        subjects.append((f"circle(r={r}, ndiv={nd})", Primitive.circle(radius=r, center=(r / 7, -r / 3), ndivangle=nd), r))
+    for scale in (1.0, 700.0):
+        vs = [(x * scale, y * scale) for x, y in shapes.rand_simple_vs(rng, 0, 0, R=6, n=5)]
+        for cubic in (False, True):
+            segs = [[(float(x), float(y)) for x, y in c] for c in rounded(vs, cubic)]
+            subjects.append((f"rounded(deg={3 if cubic else 2}, scale={scale})", SimpleShape(JordanCurve.from_ctrlpoints(segs)), 6 * scale))
+    subjects += [(n + " inverted", ~S, sc) for n, S, sc in subjects[:3]]
+    for name, S, scale in subjects:
+        J = S.jordans[0]
+        for _ in range(10 if ctx.quick else 60):
+            sg = rng.choice(J.segments)
+            if sg.degree == 1:
+                continue
+            t = rng.uniform(0.05, 0.95)
+            c = sg(t)
+            d = sg.derivate()(t)
+            L = math.hypot(float(d[0]), float(d[1]))
+            nl = (-float(d[1]) / L, float(d[0]) / L)
+            for s_abs in (2e-4, 5e-4, 1e-3, 1e-2, 1e-3 * scale):
+                for sgn in (1, -1):
+                    sd = sgn * s_abs
+                    p = (float(c[0]) + sd * nl[0], float(c[1]) + sd * nl[1])
+                    truth = sd > 0
+                    ctx.case("curved-normal-offset", (name, round(t, 6), sd))
+                    got = S.contains_point(p, True)
+                    got_open = S.contains_point(p, False)
+                    ctx.check(got == truth and got_open == truth, "curved shape: point at a small normal offset is on the wrong side", {"shape": name, "t": t, "offset": sd, "point": p}, truth, (got, got_open))
